@@ -1702,7 +1702,7 @@ def run_C16(rep, tier, rng):
 
 # =========================================================================================== registry
 
-register("C01", run_C01, ["C01.C01_every_grammar", "C01.C01_generator_passes_validator", "C01.C01_no_panic_and_sound", "C01.C01_complete", "C01.C01_accepts_iff", "C01.C01_sentences_terminate"])
+register("C01", run_C01, ["C01.C01_every_grammar", "C01.C01_generator_passes_validator", "C01.C01_coding_faithful", "C01.C01_no_panic_and_sound", "C01.C01_complete", "C01.C01_accepts_iff", "C01.C01_sentences_terminate"])
 register("C02", run_C02, ["C02.C02_every_grammar", "C02.C02_tree", "C02.C02_that_tree", "C02.C02_unique", "C02.C02_faithful"])
 register("C03", run_C03, ["C03.C03_every_grammar", "C03.C03_viable", "C03.C03_not_early", "C03.C03_lookahead_only", "C03.C03_first_offending", "C03.C03_front_end", "C03.C03_front_end_first_offending"])
 register("C04", run_C04, ["C04.C04_emitted_iff_conflict_free", "C04.C04_setAction_ok_iff", "C04.C04_setAction_fresh", "C04.C04_ok_conflict_free", "C04.C04_conflict_genuine"])
